@@ -196,7 +196,19 @@ static rfbSecurityHandler VncSecurityHandlerNone = {
     rfbVncAuthNone,
     NULL
 };
-                        
+
+/*
+ * The built-in handler that applies to this client: VNC authentication if its
+ * screen has a password, none otherwise and for reverse connections.
+ */
+static rfbSecurityHandler*
+rfbBuiltinSecurityHandler(rfbClientPtr cl)
+{
+    if (!cl->screen->authPasswdData || cl->reverseConnection)
+	return &VncSecurityHandlerNone;
+    return &VncSecurityHandlerVncAuth;
+}
+
 
 static void
 rfbSendSecurityTypeList(rfbClientPtr cl, int primaryType)
@@ -299,14 +311,7 @@ rfbSendSecurityType(rfbClientPtr cl, int32_t securityType)
 void
 rfbAuthNewClient(rfbClientPtr cl)
 {
-    int32_t securityType = rfbSecTypeInvalid;
-
-    if (!cl->screen->authPasswdData || cl->reverseConnection) {
-	/* chk if this condition is valid or not. */
-	securityType = rfbSecTypeNone;
-    } else if (cl->screen->authPasswdData) {
- 	    securityType = rfbSecTypeVncAuth;
-    }
+    int32_t securityType = rfbBuiltinSecurityHandler(cl)->type;
 
     if (cl->protocolMajorVersion==3 && cl->protocolMinorVersion < 7)
     {
@@ -346,13 +351,27 @@ rfbProcessClientSecurityType(rfbClientPtr cl)
 	return;
     }
 
-    /* Make sure it was present in the list sent by the server. */
-    for (handler = securityHandlers; handler; handler = handler->next) {
-	if (chosenType == handler->type) {
-	      rfbLog("rfbProcessClientSecurityType: executing handler for type %d\n", chosenType);
-	      handler->handler(cl);
-	      return;
+    /*
+     * Make sure it was present in the list sent by the server.  The list of
+     * handlers is shared by all screens and clients of the process, and
+     * rfbSendSecurityTypeList() swaps the built-in handlers in it for every
+     * new connection, so by now it may hold the one that was offered to some
+     * other client.  Take the built-in handler that applies to this client
+     * and look only for the other (registered) handlers in the list.
+     */
+    handler = rfbBuiltinSecurityHandler(cl);
+    if (chosenType != handler->type) {
+	for (handler = securityHandlers; handler; handler = handler->next) {
+	    if (handler != &VncSecurityHandlerNone &&
+		handler != &VncSecurityHandlerVncAuth &&
+		chosenType == handler->type)
+		break;
 	}
+    }
+    if (handler) {
+	rfbLog("rfbProcessClientSecurityType: executing handler for type %d\n", chosenType);
+	handler->handler(cl);
+	return;
     }
 
     rfbLog("rfbProcessClientSecurityType: wrong security type (%d) requested\n", chosenType);
